@@ -87,6 +87,15 @@ func Verif_H03Crash() {
 		mp := s.index.Primary.(*mhprimary.MultihashPrimary)
 		_, err := mp.GC(context.Background(), int64(vrt.Int("lowuse", 0, 100)))
 		vrt.Assert(err == nil, "primary-gc-no-error")
+	case 5: // an acknowledged, still unflushed operation followed by a primary GC cycle
+		op := []int{opPut, opRemove}[vrt.Choose("wop", 2)]
+		apiStep(s, c, keys, m, op, "window")
+		for i := range keys {
+			al.add(i, m)
+		}
+		mp := s.index.Primary.(*mhprimary.MultihashPrimary)
+		_, err := mp.GC(context.Background(), int64(vrt.Int("lowuse", 0, 100)))
+		vrt.Assert(err == nil, "primary-gc-no-error")
 	case 4: // opening a cleanly closed store (snapshot load, header reads)
 		s2, err := openCfg(dir, c)
 		vrt.Assert(err == nil, "reopen-no-error")
@@ -137,7 +146,7 @@ func Verif_H03Crash() {
 		_, _, err = r.index.VerifGC(context.Background(), true)
 		vrt.Assert(err == nil, "index-gc-after-recovery-no-error")
 	}
-	wctx := "after-recovery/" + []string{"ops+flush", "close", "index-gc", "primary-gc", "open"}[window]
+	wctx := "after-recovery/" + []string{"ops+flush", "close", "index-gc", "primary-gc", "open", "unflushed-op+primary-gc"}[window]
 	if _, e := os.Stat(filepath.Join(img, "i.free.gc")); e == nil {
 		wctx += "+leftover-freelist-gc-file" // an interrupted GC left its hand-over file behind
 	}
